@@ -15,6 +15,7 @@ package main
 
 import (
 	"encoding/json"
+	"errors"
 	"flag"
 	"fmt"
 	"os"
@@ -38,9 +39,11 @@ func stressMain(args []string) {
 	out := map[string]any{"mode": *mode, "rounds": *rounds, "workers": *workers}
 	switch *mode {
 	case "mutators":
-		out["problems"] = append(append(stressMutators(*rounds, *workers, *seed), stressResetWindow(*rounds/20+2)...), stressSetMutexWindow(*rounds/10+3)...)
+		out["problems"] = append(append(append(stressMutators(*rounds, *workers, *seed), stressResetWindow(*rounds/20+2)...), stressSetMutexWindow(*rounds/10+3)...), stressNeverEmpty(*rounds/10+3)...)
 	case "queries":
 		out["problems"] = append(stressQueries(*rounds, *workers, *seed), stressDeepEqual(*rounds/10+2, *workers)...)
+	case "policy":
+		out["problems"] = stressPolicySwap(*rounds)
 	case "options":
 		out["problems"] = append(stressOptions(*rounds, *workers, *seed), stressFIFOLatch(*rounds/3+6)...)
 	}
@@ -400,6 +403,12 @@ func stressSetMutexWindow(rounds int) []string {
 	return problems
 }
 
+// linkT: a user struct that nests through an interface-typed field
+type linkT struct {
+	N    int
+	Next any
+}
+
 // stressDeepEqual: many goroutines compare deep structures at the same time and
 // dwell inside the comparison (the innermost Stack has an equality policy that
 // takes a moment): each gets the answer it gets alone.  The depths add up to
@@ -440,6 +449,19 @@ func stressDeepEqual(rounds, workers int) []string {
 			problems = append(problems, fmt.Sprintf("deep-equal round %d: Unmarshal of the deep chain alone: %d entries, err %v", round, len(u), err))
 			continue
 		}
+		// a chain of 800 user structs ending in a Stack whose equality policy dwells
+		deepStruct := func() stk.Stack {
+			var v any = stk.Or().Push("end").SetEqualityPolicy(func(a, b any) error { time.Sleep(3 * time.Millisecond); return nil })
+			for d := 0; d < 800; d++ {
+				v = linkT{N: d, Next: v}
+			}
+			return stk.And().Push(v)
+		}
+		ds1, ds2 := deepStruct(), deepStruct()
+		if ds1.IsEqual(ds2) != nil {
+			problems = append(problems, fmt.Sprintf("deep-equal round %d: the deep struct chains do not compare equal alone", round))
+			continue
+		}
 		alone := []bool{a.IsEqual(b) == nil, small1.IsEqual(small2) == nil, diff1.IsEqual(diff2) == nil}
 		if !alone[0] || !alone[1] || alone[2] {
 			problems = append(problems, fmt.Sprintf("deep-equal round %d: alone the answers are %v, want [true true false]", round, alone))
@@ -458,6 +480,13 @@ func stressDeepEqual(rounds, workers int) []string {
 						pmu.Unlock()
 					}
 				}()
+				if err := ds1.IsEqual(ds2); err != nil {
+					pmu.Lock()
+					if len(problems) < 10 {
+						problems = append(problems, fmt.Sprintf("deep-equal round %d: 800 nested structs compared by %d goroutines at once: %v; alone they are equal", round, workers+4, err))
+					}
+					pmu.Unlock()
+				}
 				if u, err := um.Unmarshal(); err != nil || len(u) != 2 {
 					pmu.Lock()
 					if len(problems) < 10 {
@@ -542,6 +571,139 @@ func stressFIFOLatch(rounds int) []string {
 		}
 		if !s.IsFIFO() {
 			problems = append(problems, fmt.Sprintf("fifo round %d: SetFIFO(true) returned, yet the stack is not in FIFO mode afterwards (a SetFIFO(false) issued earlier switched it off)", round))
+		}
+	}
+	return problems
+}
+
+// stressPolicySwap: a Push that waits for the stack's lock is judged by the push
+// policy that is installed when it gets to run.  A parks inside policy P1
+// (holding the lock), B queues a Push behind it, P1 is replaced by P2 (rejects
+// everything; SetPushPolicy does not wait for the lock), A is released: P2 is
+// consulted for B's value, which is not stored, and Err() reports P2's error.
+func stressPolicySwap(rounds int) []string {
+	var problems []string
+	for round := 0; round < rounds; round++ {
+		s := newStack(kinds[round%len(kinds)], -1)
+		s.SetMutex()
+		entered, release := make(chan struct{}), make(chan struct{})
+		var mu sync.Mutex
+		var p2saw []any
+		s.SetPushPolicy(func(x ...any) error {
+			if v, _ := x[0].(string); v == "gate" {
+				close(entered)
+				<-release
+			}
+			return nil
+		})
+		var wg sync.WaitGroup
+		wg.Add(1)
+		go func() { defer wg.Done(); defer func() { recover() }(); s.Push("gate") }()
+		select {
+		case <-entered:
+		case <-time.After(10 * time.Second):
+			close(release)
+			problems = append(problems, fmt.Sprintf("policy round %d: the first policy was never consulted", round))
+			continue
+		}
+		wg.Add(1)
+		go func() { defer wg.Done(); defer func() { recover() }(); s.Push("late") }()
+		time.Sleep(30 * time.Millisecond) // B is now waiting for the lock (or about to)
+		swapped := make(chan struct{})
+		go func() {
+			s.SetPushPolicy(func(x ...any) error {
+				mu.Lock()
+				p2saw = append(p2saw, x[0])
+				mu.Unlock()
+				return errors.New("denied by the second policy")
+			})
+			close(swapped)
+		}()
+		select {
+		case <-swapped:
+		case <-time.After(2 * time.Second):
+			// the setter waits for the lock: the order of B and the swap is then open; nothing to judge
+			close(release)
+			wg.Wait()
+			continue
+		}
+		close(release)
+		finished := make(chan bool, 1)
+		go func() { wg.Wait(); finished <- true }()
+		select {
+		case <-finished:
+		case <-time.After(60 * time.Second):
+			return append(problems, fmt.Sprintf("policy round %d: the pushes did not finish within 60s", round))
+		}
+		mu.Lock()
+		saw := len(p2saw)
+		mu.Unlock()
+		stored := false
+		for i := 0; i < s.Len(); i++ {
+			if v, _ := s.Index(i); v == "late" {
+				stored = true
+			}
+		}
+		if saw != 1 || stored || s.Err() == nil {
+			problems = append(problems, fmt.Sprintf("policy round %d: a Push that waited for the lock while the policy was replaced: the new policy was consulted %d time(s), the value is stored: %v, Err() = %v (want 1, false, the new policy's error)", round, saw, stored, s.Err()))
+		}
+	}
+	return problems
+}
+
+// stressNeverEmpty: a mutex-enabled LIFO stack of 4000 elements loses 600 of them to
+// Remove(0) and 600 to Pop from two goroutines: it is never empty, so every
+// one of those calls finds an element.
+func stressNeverEmpty(rounds int) []string {
+	var problems []string
+	for round := 0; round < rounds; round++ {
+		s := stk.Basic() // LIFO: Remove and Pop then each publish their result with one store
+		s.SetMutex()
+		vals := make([]any, 4000)
+		for i := range vals {
+			vals[i] = i
+		}
+		s.Push(vals...)
+		var wg sync.WaitGroup
+		var missR, missP, revSkipped int32
+		wg.Add(3)
+		go func() {
+			defer wg.Done()
+			defer func() { recover() }()
+			for i := 0; i < 600; i++ {
+				if _, ok := s.Remove(0); !ok {
+					atomic.AddInt32(&missR, 1)
+				}
+			}
+		}()
+		go func() {
+			defer wg.Done()
+			defer func() { recover() }()
+			for i := 0; i < 600; i++ {
+				if _, ok := s.Pop(); !ok {
+					atomic.AddInt32(&missP, 1)
+				}
+			}
+		}()
+		go func() {
+			defer wg.Done()
+			defer func() { recover() }()
+			for i := 0; i < 200; i++ {
+				if s.IsEmpty() || s.Len() == 0 {
+					atomic.AddInt32(&revSkipped, 1)
+				}
+				runtime.Gosched()
+			}
+		}()
+		finished := make(chan bool, 1)
+		go func() { wg.Wait(); finished <- true }()
+		select {
+		case <-finished:
+		case <-time.After(90 * time.Second):
+			return append(problems, fmt.Sprintf("never-empty round %d: Remove against Pop did not finish within 90s", round))
+		}
+		if missR+missP+revSkipped > 0 || s.Len() != 2800 {
+			problems = append(problems, fmt.Sprintf("never-empty round %d: on a stack that never held fewer than 2800 elements %d Remove(0) and %d Pop calls found nothing, %d looks found it empty; %d elements are left (want 0, 0, 0, 2800)", round, missR, missP, revSkipped, s.Len()))
 		}
 	}
 	return problems
